@@ -104,7 +104,7 @@ def evOK : Ev → Bool
         | some l => decide (l + T < deadline + touchIv)
         | none => true))
   | .tried _ _ ok ll ss sk st su pf rn _ _ _ => !ok || (!ll && !ss && !sk && !st && !su && !pf && rn)
-  | .crossed _ _ p b m => decide (wrap64 (b + m) ≤ p)
+  | .crossed _ _ p b m => decide (b + m ≤ p)
   | .postStop _ wasRunning => wasRunning
   | _ => true
 
